@@ -20,7 +20,7 @@ RULE = ("A history = 1..3 initial landscapes (from generated critical pairs, or 
         "at its creation. The history is one shrinkable JSON value and the replay file is the history itself.")
 ASSUMPTIONS = [
     "exact landscapes: equality with the model is decided on the union of all breakpoints in the pool + midpoints + outside points (both sides are "
-    "piecewise linear there); tolerance 1e-9 * (largest total variation / ordinate in the pool)",
+    "piecewise linear there); tolerance 1e-9 * (largest total variation, ordinate or |abscissa| in the pool)",
     "diagram-built exact landscapes are used only when the C03 hook reports that the repeated-bar shortcut did not fire (excluded cases are counted)",
     "re-sampling: only interpolation inside the source grid is asserted, and zero outside for sources that vanish at both ends; extrapolation of a "
     "source whose end samples are non-zero is unspecified",
@@ -94,7 +94,8 @@ class ExactPool:
             breaks |= model_breaks(it["model"])
             cur = cps_of(it["obj"])
             breaks |= {q[0] for d in cur for q in d}
-            scale = max(scale, tv(cur))
+            # ordinates are differences of abscissae: their rounding error is relative to the coordinate magnitude
+            scale = max(scale, tv(cur), max([abs(q[0]) for d in cur for q in d] + [0.0]))
         T = L.eval_points(breaks)
         for idx, it in enumerate(self.items):
             if it.get("lazy") and not it["obj"].critical_pairs:
